@@ -180,8 +180,9 @@ CHECKS = {
              '(possibly identical) matches.',
         note='Partly reachable: the cost model of CPython\'s sre engine is not encoded; zero-width assertions are ignored in the '
              'ambiguity search (candidates are filtered by replay); quadratic blow-ups and pumps longer than K are outside. '
-             'Five patterns are confirmed slow on the pinned tree and listed in known_findings.jsonl (keyed by pattern and '
-             'witness kind); any other pattern becoming slow is a VIOLATION.'),
+             'Six patterns are confirmed slow on the pinned tree and listed in known_findings.jsonl, keyed by pattern, witness '
+             'kind and class of pump (white space / through-word / punctuation): exponential witnesses are searched class by '
+             'class so that a further ambiguity of an already listed pattern, or any other pattern becoming slow, is a VIOLATION.'),
     'C17': dict(
         engine='S', category='other', design_ref='DESIGN.md §4 C17',
         technique='CrossHair (z3-backed symbolic execution) of the real custom_sort/_sort_custom over symbolic element '
@@ -249,14 +250,18 @@ CHECKS = {
              'flags. Quick fixes the second keyword to None. The reference model (props/c14_ref.py) is part of the trusted base.'),
     'C15': dict(
         engine='S', category='other', design_ref='DESIGN.md §4 C15',
-        technique='CrossHair symbolic execution of prior-activity sequences (symbolic operation kinds and probe index) through the '
-                  'real library, path tree exhausted; probe observables compared with the empty-history baseline',
-        text='For 14 probes (TRS strings incl. error / undefined / near-miss / empty, tract descriptions, PLSS descriptions incl. '
-             'missing directions) and every sequence of 1-2 (quick) / 3 (thorough) prior operations out of 9 kinds (other parses, '
+        technique='CrossHair symbolic execution over prior-activity sequences (symbolic operation kinds, path tree exhausted); the '
+                  'chosen operations and all probes then run concretely through the real library; probe observables compared with '
+                  'the empty-history baseline, the defaults probe with values from the specification',
+        text='For 17 probes (TRS strings incl. error / undefined / near-miss / empty, tract descriptions, PLSS descriptions incl. '
+             'missing directions and OCR look-alikes, Twp/Rge built from direction-less numbers under four pairs of MasterConfig '
+             'defaults) and every sequence of 1-2 (quick) / 3-4 (thorough) prior operations out of 10 kinds (other parses, '
              'MasterConfig changed and restored, objects created under other defaults, TRS cache cleared / disabled / enabled / '
              'pre-warmed, dicts and lists returned by trs_to_dict / to_dict / tracts_to_dict / tracts_to_list / list_trs mutated) '
              'the probe result equals the empty-history result and MasterConfig is as before.',
         note='Baseline is computed in the worker process before any operation; a fresh interpreter is used by the replay. '
+             'Operations and probes run outside CrossHair tracing because CrossHair bypasses functools.lru_cache under tracing '
+             '(a leaking memo would be invisible); inputs are concrete, only the choice of operations is symbolic. '
              'The private TRS.__CACHE is not written to directly (only through the public API and _clear_cache/_USE_CACHE).'),
     'C20': dict(
         engine='S+M', category='other', design_ref='DESIGN.md §4 C20',
